@@ -273,7 +273,7 @@ func run(id string, cfg propCfg, tier string, seed uint64, repo string, jobs int
 				if replayCase != nil {
 					only = replayCase.Idx
 				}
-				r := superviseShard(id, cfg, v, bin, tier, seed, sh, n, work, only, repo)
+				r := superviseShard(id, cfg, v, bin, tier, seed, sh, n, work, only, repo, replay)
 				mu.Lock()
 				defer mu.Unlock()
 				merged.evals += r.evals
@@ -439,7 +439,7 @@ func matchFinding(fs []finding, id, key string) *finding {
 
 // superviseShard runs one shard to completion, restarting the worker after each
 // fatal crash or hang verdict at the case after the one that was open.
-func superviseShard(id string, cfg propCfg, v variant, bin, tier string, seed uint64, shard, nshards int, work string, only int64, repo string) shardResult {
+func superviseShard(id string, cfg propCfg, v variant, bin, tier string, seed uint64, shard, nshards int, work string, only int64, repo, replayFile string) shardResult {
 	res := shardResult{counts: map[string]int64{}, nviol: map[string]int{}, metas: map[string]any{}, floors: map[string]int64{}}
 	prefix := filepath.Join(work, fmt.Sprintf("%s-%d", v.Name, shard))
 	resume := int64(0)
@@ -451,6 +451,9 @@ func superviseShard(id string, cfg propCfg, v variant, bin, tier string, seed ui
 			"-tier", tier, "-out", prefix, "-resume", strconv.FormatInt(resume, 10), "-variant", v.Name}
 		if only >= 0 {
 			args = append(args, "-only", strconv.FormatInt(only, 10))
+			if replayFile != "" {
+				args = append(args, "-replayfile", replayFile)
+			}
 		}
 		cmd := exec.Command(bin, args...)
 		cmd.Stdout = ef
